@@ -185,6 +185,11 @@ impl D {
                 return None;
             }
         }
+        // a long form (more than 28 fractional digits, the excess all zeros) is the same number
+        while sc > 28 && m % 10 == 0 {
+            m /= 10;
+            sc -= 1;
+        }
         if !any || sc > 28 {
             return None;
         }
@@ -236,8 +241,23 @@ pub struct Gen {
     pub w: Weights,
 }
 
+/// the same number written with 29 – 31 fractional digits (trailing zeros): `Decimal::from_str`
+/// rounds such a string back, `from_str_exact` refuses it
+fn long_form(rng: &mut Rng, s: &str) -> String {
+    let (int, frac) = match s.split_once('.') {
+        Some((a, b)) => (a.to_string(), b.to_string()),
+        None => (s.to_string(), String::new()),
+    };
+    if !frac.chars().all(|c| c.is_ascii_digit()) || frac.len() > 28 {
+        return s.to_string();
+    }
+    let want = 29 + rng.below(3) as usize;
+    format!("{}.{}{}", int, frac, "0".repeat(want - frac.len()))
+}
+
 fn respell(rng: &mut Rng, s: &str) -> String {
-    match rng.below(6) {
+    match rng.below(8) {
+        6 | 7 => long_form(rng, s),
         0 => format!("{}{}", s, if s.contains('.') { "0" } else { ".0" }),
         1 => format!("0{}", s),
         2 => format!("+{}", s),
@@ -313,6 +333,10 @@ impl Gen {
         }
         if self.rng.pct(3) {
             return "-0.1".to_string();
+        }
+        if self.rng.pct(6) {
+            // a valid rate written with more fractional digits than a 96-bit decimal keeps
+            return self.rng.pick(&["0.010000000000000000000000000000", "0.0025000000000000000520417042793", "0.10000000000000000000000000000", "0.33333333333333333333333333333"]).to_string();
         }
         self.rng.pick(&rates).to_string()
     }
